@@ -639,6 +639,10 @@ def check_case(case, ctx):
 
     # ---- same seed => same samples ---------------------------------------------------------------------
     model2 = model if case["rerun"] == "same-model" else build.build_model(spec, case["path"])
+    # whatever else uses numpy's global generator between the runs must not matter: the samples depend on the sampler's
+    # seed only (since seeded change C16-9)
+    np.random.seed((case["seed"] + 977) % (2**32 - 1))
+    np.random.random(3)
     frames2, _ = _run(model2, case)
     for b, (f1, f2) in enumerate(zip(frames, frames2)):
         A, B = f1.to_numpy(dtype=float), f2.to_numpy(dtype=float)
